@@ -17,10 +17,13 @@ Definition O (id : nat) (ins outs : list name) (p : option (primop unit)) : opno
   {| oid := id; ins := ins; outs := outs; prim := p |}.
 Definition D (ops : list (opnode unit)) (virt : list name) : dag unit := {| dops := ops; virtuals := virt |}.
 
+(* block counts are observed up to a cap: they are only ever compared with small limits (max_total_num_input_blocks),
+   and the harness caps the counts it writes so that nat literals stay small *)
+Definition NIB_CAP : nat := 200.
 Definition prim_eqb (a b : primop unit) : bool :=
   Bool.eqb (bw _ a) (bw _ b) && Bool.eqb (fpred _ a) (fpred _ b) && Bool.eqb (fsucc _ a) (fsucc _ b)
   && Nat.eqb (ntasks _ a) (ntasks _ b) && Z.eqb (proj _ a) (proj _ b) && Z.eqb (allowed _ a) (allowed _ b)
-  && Z.eqb (reserved _ a) (reserved _ b) && natlist_eqb (nib _ a) (nib _ b)
+  && Z.eqb (reserved _ a) (reserved _ b) && natlist_eqb (map (Nat.min NIB_CAP) (nib _ a)) (map (Nat.min NIB_CAP) (nib _ b))
   && Z.eqb (chunkmem _ a) (chunkmem _ b) && natlist_eqb (srcs _ a) (srcs _ b).
 
 Definition op_eqb (a b : opnode unit) : bool :=
